@@ -233,7 +233,7 @@ def main():
         run(chk, 2500)
     else:
         run(chk, 250)
-        if chk.broken() and not chk.spec_failures:
+        if (chk.broken() or chk.anchor_changed) and not chk.spec_failures:
             run(chk, 1000)
     chk.finish()
 
